@@ -1,3 +1,21 @@
 from props.common import run_all as run  # noqa: F401
 
-META = {"claimed": False, "reason": "check not built yet (work in progress; the technique applies, see DESIGN.md section 5)"}
+META = {'claimed': True,
+ 'title': 'Event loop: dispatch order, progress and status propagation',
+ 'level_text': 'proof: on the same executable model of events/events.c, events_immediate.c, events_network.c, events_timer.c + timer heap as C04 (constants regenerated), for EVERY program of '
+               'registrations / cancellations / resets from outside and inside callbacks, all priorities, deadline orders, poll-answer and clock schedules and every fuel: the trace checker with '
+               'every clause on accepts every trace of the model (C05_model_traces_accepted) and is sound for the nine logical clauses (C05_check_sound); exported per clause: a descriptor or timer '
+               'callback starts only when no immediate is pending and a timer callback only directly after a zero-timeout poll that made nothing ready (C05_choice_priority); the immediate that runs '
+               'has the lowest priority value and is first-registered among equals (C05_immediate_order); the timer that runs has the earliest deadline (C05_timer_order); a run starting with an '
+               'immediate pending runs a callback and never polls (C05_progress_immediate); the first poll blocks forever only without timers and otherwise for the distance to the earliest deadline '
+               "rounded up to a millisecond, never negative nor beyond the clamp (C05_blocking_bound, C05_select_timeout_bound for events_network_select's conversion alone), later polls of a run "
+               'have timeout 0 except the repeat of an EINTR poll (C05_later_polls); a run that returns without invoking anything had nothing runnable (C05_wake_runs); events_run / events_spin '
+               "return the latest callback's result and after a non-zero result or an interrupt no further callback starts (C05_status_returned, C05_stops_dispatch); every live id is still "
+               "registered in the final state (C05_pending_stay_registered). 13 theorems, unbounded. Hypothesis beyond C04's: clock readings non-decreasing (monotonic clock). For events_spin the "
+               'progress/timeout clauses are stated for events_run only. Bound to the C by the same correspondence run as C04 (implementation trace = model trace; the extracted check_c04 and '
+               "check_c05 evaluated on the IMPLEMENTATION's trace, poll timeout argument observed by interposition).",
+ 'level_note': 'Trusted: Coq kernel; hand-written Gallina model of events*.c bound by differential execution (ASan/UBSan, interposed poll/clock_gettime); in the model an EINTR poll stores revents = '
+               '0 and an exhausted poll script is EINTR with interrupt; normalised timevals, fd < 2^31, non-decreasing clock. Repaired defect F10 (clamp) has its regression in the select-timeout '
+               'theorem. Print Assumptions: closed under the global context.',
+ 'trusted_base': ['interposition of poll(2) and clock_gettime in harness/drv_events.c', 'tools/extract/x_events.py'],
+ 'assumptions': ['monotonic clock readings are non-decreasing', 'timevals normalised (tv_usec < 10^6)']}
